@@ -242,9 +242,10 @@ func zzAllASCII(s string) bool {
 }
 
 // ZZ_C01_Headline: "2020-01-01" followed by n arbitrary bytes.
-//   must accept: nothing, or one or more spaces and "(" duration "!)"
-//   must reject: any non-blank text that is not a (loosely spaced) should-total
-//   don't care:  trailing blanks, tabs as separators, blanks inside the parentheses, non-ASCII bytes
+//
+//	must accept: nothing, or one or more spaces and "(" duration "!)"
+//	must reject: any non-blank text that is not a (loosely spaced) should-total
+//	don't care:  trailing blanks, tabs as separators, blanks inside the parentheses, non-ASCII bytes
 func ZZ_C01_Headline() {
 	n := zz.Param("n")
 	tail := zz.String("tail", n)
@@ -326,9 +327,10 @@ func ZZ_C01_Headline() {
 
 // ZZ_C01_Entry: headline, then one line: an indentation sequence and n arbitrary
 // bytes (first byte not blank).
-//   must accept: VALUE | VALUE " " summary      (value part ASCII)
-//   must reject: everything that is not VALUE, or VALUE followed by blank and text
-//   don't care:  a tab as separator between value and summary
+//
+//	must accept: VALUE | VALUE " " summary      (value part ASCII)
+//	must reject: everything that is not VALUE, or VALUE followed by blank and text
+//	don't care:  a tab as separator between value and summary
 func ZZ_C01_Entry() {
 	n := zz.Param("n")
 	indent := []string{"    ", "  ", "   ", "\t"}[zz.Param("indent")]
@@ -470,4 +472,123 @@ func ZZ_C01_RangeTemplate() {
 			zz.Assert(len(l) == 1 && l[0] == want, "range-summary")
 		}
 	}
+}
+
+// ---------------------------------------------------------------------------
+// Summary lines and the specification's "blank character" (tab or Unicode Zs).
+// ---------------------------------------------------------------------------
+
+// zzZsAt: the bytes s[i:i+k] encode one blank character (k = 1, 2, 3).
+func zzZsAt(s string, i, k int) bool {
+	if i+k > len(s) {
+		return false
+	}
+	switch k {
+	case 1:
+		return zz.Or(s[i] == ' ', s[i] == '\t')
+	case 2:
+		return zz.And(s[i] == 0xC2, s[i+1] == 0xA0) // U+00A0
+	}
+	a, b, c := s[i], s[i+1], s[i+2]
+	r := zz.And(a == 0xE1, zz.And(b == 0x9A, c == 0x80))                                               // U+1680
+	r = zz.Or(r, zz.And(a == 0xE2, zz.And(b == 0x80, zz.Or(zz.And(c >= 0x80, c <= 0x8A), c == 0xAF)))) // U+2000-200A, U+202F
+	r = zz.Or(r, zz.And(a == 0xE2, zz.And(b == 0x81, c == 0x9F)))                                      // U+205F
+	r = zz.Or(r, zz.And(a == 0xE3, zz.And(b == 0x80, c == 0x80)))                                      // U+3000
+	return r
+}
+
+func zzAllBlankRunes(s string) bool {
+	n := len(s)
+	ab := make([]bool, n+1)
+	ab[n] = true
+	for i := n - 1; i >= 0; i-- {
+		v := false
+		for k := 1; k <= 3; k++ {
+			if i+k <= n {
+				v = zz.Or(v, zz.And(zzZsAt(s, i, k), ab[i+k]))
+			}
+		}
+		ab[i] = v
+	}
+	return ab[0]
+}
+
+func zzStartsBlank(s string) bool {
+	return zz.Or(zzZsAt(s, 0, 1), zz.Or(zzZsAt(s, 0, 2), zzZsAt(s, 0, 3)))
+}
+
+// ZZ_C01_SummaryLine: n arbitrary bytes as (kind 0) a record summary line or
+// (kind 1) the continuation line of an entry summary that is followed by another
+// entry.  For valid UTF-8:
+//
+//	kind 0: rejected iff the line starts with a blank character (tab or Zs)
+//	kind 1: rejected iff the line consists of blank characters only (either it breaks
+//	        the entry-summary rule or it is a blank line inside the record)
+func ZZ_C01_SummaryLine() {
+	n := zz.Param("n")
+	kind := zz.Param("kind")
+	tail := zz.String("tail", n)
+	zzNoNewline(tail)
+	var text string
+	if kind == 0 {
+		zz.Assume(zz.Not(zzZsAt(tail, 0, 1))) // a leading space or tab makes it an entry line
+		text = "2020-01-01\n" + tail + "\n    1h\n"
+	} else {
+		text = "2020-01-01\n    1h\n        " + tail + "\n    2h\n"
+	}
+	rs, _, errs := NewSerialParser().Parse(text)
+	accepted := errs == nil
+	zz.Observe("accepted", accepted)
+	valid := zzValidUTF8(tail)
+	if !valid {
+		return
+	}
+	if kind == 0 {
+		zz.Assert(zz.Iff(zzStartsBlank(tail), zz.Not(accepted)), "summary-line-starting-blank-rejected-others-accepted")
+		if accepted {
+			zz.Assert(len(rs) == 1 && len(rs[0].Summary().Lines()) == 1 && len(rs[0].Entries()) == 1, "summary-line-structure")
+			if len(rs) == 1 && len(rs[0].Summary().Lines()) == 1 {
+				zz.Assert(rs[0].Summary().Lines()[0] == tail, "summary-line-text")
+			}
+		}
+		return
+	}
+	zz.Assert(zz.Iff(zzAllBlankRunes(tail), zz.Not(accepted)), "blank-only-continuation-rejected-others-accepted")
+	if accepted {
+		zz.Assert(len(rs) == 1 && len(rs[0].Entries()) == 2, "continuation-structure")
+		if len(rs) == 1 && len(rs[0].Entries()) == 2 {
+			ls := rs[0].Entries()[0].Summary().Lines()
+			zz.Assert(len(ls) == 2 && ls[0] == "" && ls[1] == tail, "continuation-line-text")
+		}
+	}
+}
+
+// zzValidUTF8 is a reference UTF-8 validity test on symbolic bytes (RFC 3629 table).
+func zzValidUTF8(s string) bool {
+	n := len(s)
+	ok := make([]bool, n+1)
+	ok[n] = true
+	cont := func(b byte) bool { return zz.And(b >= 0x80, b <= 0xBF) }
+	for i := n - 1; i >= 0; i-- {
+		v := zz.And(s[i] < 0x80, ok[i+1])
+		if i+2 <= n {
+			v = zz.Or(v, zz.And(zz.And(s[i] >= 0xC2, s[i] <= 0xDF), zz.And(cont(s[i+1]), ok[i+2])))
+		}
+		if i+3 <= n {
+			a, b, c := s[i], s[i+1], s[i+2]
+			lead := zz.Or(zz.And(a == 0xE0, zz.And(b >= 0xA0, b <= 0xBF)),
+				zz.Or(zz.And(zz.Or(zz.And(a >= 0xE1, a <= 0xEC), zz.And(a >= 0xEE, a <= 0xEF)), cont(b)),
+					zz.And(a == 0xED, zz.And(b >= 0x80, b <= 0x9F))))
+			v = zz.Or(v, zz.And(lead, zz.And(cont(c), ok[i+3])))
+		}
+		if i+4 <= n {
+			a, b, c, d := s[i], s[i+1], s[i+2], s[i+3]
+			lead := zz.Or(zz.And(a == 0xF0, zz.And(b >= 0x90, b <= 0xBF)),
+				zz.Or(zz.And(zz.And(a >= 0xF1, a <= 0xF3), cont(b)),
+					zz.And(a == 0xF4, zz.And(b >= 0x80, b <= 0x8F))))
+			v = zz.Or(v, zz.And(lead, zz.And(cont(c), zz.And(cont(d), ok[i+4]))))
+		}
+		ok[i] = v
+	}
+	return ok[0]
 }
